@@ -466,13 +466,17 @@ theorem truncated_paths_none :
       decide (parse_facebook_url ("/" ++ p).toList true = .ok none)) = true := by
   decide +kernel
 
-/-- **round trip of what the parser returns, the "if" half of `reparse_iff`**: for every string and
+/-- **round trip of what the parser returns, proved part**: for every string and
 both values of `allow_relative_urls`, if `parse_facebook_url` returns a record `r` with `charsOk r` —
 no field that goes to the path of the canonical url is `.` / `..`, the one that ends that path has
 no `.` / `..` in front of its first `;` and does not have its first `;` as last character; no field
 that goes to its query contains `& # +` TAB CR LF or a percent escape `%XX` — then `.url` returns a
-url and parsing that url gives the same record.  `charsOk` is exact: a returned record that does not
-satisfy it does not round-trip (`reparse_iff`).  Nothing else is assumed: that the fields are not
+url and parsing that url gives the same record.  The hypothesis is meant to be the *exact* class: on
+the real code a returned record outside `charsOk` does not round-trip (0 exceptions among the
+records of every run, label `reparse=excluded-roundtrips`, and among 256 k records enumerated over
+`a . ; % 4 1 & + #` blank TAB — design note); in Lean that converse is proved for one witness of each
+kind of exclusion only (`excluded_shapes_fail`, `excluded_query_chars_fail`,
+`excluded_last_field_fail`), not for all records.  Nothing else is assumed: that the fields are not
 empty (`parsed_fields_nonempty`), that the path-borne ones have no white space at their ends, no
 `/ ? #` and no TAB CR LF (`parsed_path_fields_clean`), and that no earlier route of the parser takes
 the canonical url are *derived* from the fact that the parser returned the record.  White space
@@ -529,8 +533,9 @@ theorem fullReparse_false : ¬ FullReparse :=
   not_fullReparse_of_witness witnessUrl witnessCanonical (.handle witnessHandle)
     witness_facts.1 witness_facts.2.1 witness_facts.2.2.1
 
-/-- **every exclusion of `charsOk` really fails** (by design of `urljoin` / `urlsplit` /
-`parse_qs`: the builders do not escape): a dot segment is resolved, an empty `;params` is dropped;
+/-- **one failing witness for each kind of exclusion of `charsOk`** (closed examples, not a theorem
+over all excluded records; by design of `urljoin` / `urlsplit` / `parse_qs`: the builders do not
+escape): a dot segment is resolved, an empty `;params` is dropped;
 in a query value an escaped `&` ends the value, an escaped `+` comes back as a blank (`%`, `#`,
 TAB: `excluded_query_chars_fail`). -/
 theorem excluded_shapes_fail :
@@ -584,6 +589,21 @@ theorem excluded_query_chars_fail :
     parse_facebook_url "https://www.facebook.com/profile.php?id=a%26b".toList false
       = .ok (some (.user "a&b".toList none)) ∧
     charsOk (.user "a%26b".toList none) = false := by
+  decide +kernel
+
+/-- the two remaining kinds of exclusion of the field that ends the canonical path really fail too:
+a dot segment in front of its first `;` (`urljoin` resolves dot segments on the path without the
+params: `/..;x` becomes `/;x`), a `;` as last character after a dot (`/x/posts/.;` becomes `/x/posts/`) -/
+theorem excluded_last_field_fail :
+    parse_facebook_url "https://www.facebook.com/..;x".toList false = .ok (some (.handle "..;x".toList)) ∧
+    (Parsed.handle "..;x".toList).url = .ok (some "https://www.facebook.com/;x".toList) ∧
+    parse_facebook_url "https://www.facebook.com/;x".toList false = .ok (some (.handle ";x".toList)) ∧
+    charsOk (.handle "..;x".toList) = false ∧
+    parse_facebook_url "https://www.facebook.com/x/posts/.;".toList false
+      = .ok (some (.post ".;".toList none (some "x".toList) none none)) ∧
+    (Parsed.post ".;".toList none (some "x".toList) none none).url = .ok (some "https://www.facebook.com/x/posts/".toList) ∧
+    parse_facebook_url "https://www.facebook.com/x/posts/".toList false = .ok none ∧
+    charsOk (.post ".;".toList none (some "x".toList) none none) = false := by
   decide +kernel
 
 /-- **the inputs of the former known finding KF-C19-FB-5 now behave** (the `fix:` commit made from
